@@ -53,6 +53,10 @@ def run(ctx):
                     for key in (5, 6):
                         jobs.append((cfg6, [['itf %d' % key, 'ite', 'itr'], ['get 4'], ['get 4', 'get 5']], 'prefix', 120, ctx['seed'], ()))
                         jobs.append((cfg6, [['itf %d' % key, 'ite', 'itn', 'itr'], ['get 4', 'get 4'], ['get %d' % key]], 'dfs', n, ctx['seed'], ('--pb', '2')))
+                    # erase(iterator) of every position reached by ++ from begin(): array slots, first / middle / last extension item
+                    cfg7 = dict(cfg, init='1.2.3.4.5.6.7')
+                    for j in range(7):
+                        jobs.append((cfg7, [['itb'] + ['itn'] * j + ['ite', 'itn', 'ite', 'itr', 'trav']], 'opseq', 1, ctx['seed'], ()))
                 jobs.append((cfg, vhm_program(rng, 3, 3, iter_thread=0), 'random', n, ctx['seed'], ()))
                 jobs.append((cfg, vhm_program(rng, 3, 3, iter_thread=0), 'pct', n, ctx['seed'], ('--depth', '3')))
         do_search(ctx, H, jobs, name, classify=lambda c, h, f, name=name: {'harness': name})
